@@ -413,12 +413,12 @@ fn edge_cases(ctx: &Ctx, stats: &Stats, r: &Reach, tier: Tier, relabel_targets: 
             }
         }
         // sub-elements that exist only in other versions
-        let mut seen = HashSet::new();
-        for (name, _st, mask, _) in p.sub_element_spec_iter() {
-            if v.compatible(mask) || !seen.insert(name) || subs.iter().any(|s| s.name == name) {
+        for name in lookup_names(*p).iter().copied() {
+            if subs.iter().any(|s| s.name == name) {
                 continue;
             }
-            if let Some((ft, _)) = p.find_sub_element(name, u32::MAX) {
+            if let Some((ft, idx)) = p.find_sub_element(name, u32::MAX) {
+                let mask = p.get_sub_element_version_mask(&idx).unwrap_or(0);
                 let mut ctr = 0;
                 // build the foreign child with a version in which it exists, so that only its presence is wrong
                 let vv = VERSIONS.iter().rev().copied().find(|x| x.compatible(mask)).unwrap_or(v);
@@ -523,6 +523,9 @@ pub fn run(tier: Tier) -> i32 {
     let mut edges = 0u64;
     for v in &versions {
         let r = reach(*v);
+        for (kind, t, n) in listing_lookup_discrepancies(&r) {
+            ctx.violation(format!("spec|{kind}"), json!({"version": format!("{:?}", r.version), "type": t, "name": n.to_str()}));
+        }
         states += r.order.len() as u64;
         edges += r.edges as u64;
         let pairs_enabled = tier == Tier::Thorough || *v == AutosarVersion::LATEST;
